@@ -49,6 +49,23 @@ Definition c_startup : kv cblob -> option (ram * list (kvop cblob)) :=
 Definition c_replay : kv cblob -> list (kvop cblob) -> kv cblob := replay cblob.
 Definition c_kvlog : list (ev cblob) -> list (kvop cblob) := kvlog cblob.
 
+(** A power loss INSIDE an operation: only the first [j] of its key-value operations (not counting
+    the keys of other properties, which the harness does not count either) reach the store, then the
+    node restarts from it.  Not an [op]: the theorems speak of whole operations and of arbitrary cuts
+    of the log; this is the second kind made a point of a history that GOES ON afterwards. *)
+Definition foreign_kvop (o : kvop cblob) : bool :=
+  match o with KStore k _ | KRemove k => (k =? 257) || (k =? 269) end.
+Fixpoint take_scoped (j : nat) (l : list (kvop cblob)) : list (kvop cblob) :=
+  match j, l with
+  | O, _ | _, [] => []
+  | S j', o :: t => if foreign_kvop o then o :: take_scoped j t else o :: take_scoped j' t
+  end.
+Definition c_step_cut (fix_label : bool) (st : c_state) (o : op) (j : nat) : c_state * list (ev cblob) :=
+  let kvs := take_scoped j (c_kvlog (snd (c_step fix_label st o))) in
+  let st1 := mkState cblob (s_ram st) (s_fs st) (s_pase st) (c_replay (s_kv st) kvs) in
+  let (st2, evs) := c_step fix_label st1 OCrash in
+  (st2, map (@EKv cblob) kvs ++ evs).
+
 (** ** Initial states of the harness: [n] commissioned fabrics (1 and 2), a PASE session or not *)
 Definition DEV_NODE : N := 8738.   (* 0x2222 *)
 Definition init_fabric (i : N) : fabric := mkFabric (DEV_NODE + i - 1) VENDOR 0 0 0.
@@ -88,13 +105,22 @@ Record oprec := mkOp {
   o_end : N;                (* key-value operations issued by the history up to here *)
   o_left : option N;        (* factory reset: how many keys were left in the store *)
   o_best_effort : bool;     (* a subscribe request: persisted after the answer, by design *)
-  o_cells : cells           (* the live node after the operation *)
+  o_cells : cells;          (* the live node after the operation *)
+  (* the resumption cache and the fabrics it speaks of, in the open *)
+  o_restart : bool;         (* this record is a start-up (power loss between or inside operations) *)
+  o_session : option (N * N); (* a CASE session (fabric, peer) was established by this operation *)
+  o_fabs : list N;          (* fabric indexes in the table *)
+  o_res : list (N * N);     (* records (fabric, peer) of the cache in memory *)
+  o_kres : list (N * N);    (* records of the cache in the store *)
+  o_inc : list (N * N)      (* fabric index -> which commissioning it stands for (numbered by the harness) *)
 }.
 
 Record cutrec := mkCut {
   c_n : N;                  (* restarted from the first [c_n] key-value operations *)
   c_boot : bool;            (* start-up succeeded *)
-  c_cells : cells
+  c_cells : cells;
+  c_fabs : list N;
+  c_kres : list (N * N)     (* the stored cache once start-up is through *)
 }.
 
 Definition find_cut (cuts : list cutrec) (n : N) : option cutrec :=
@@ -106,7 +132,8 @@ Definition cell_ids (a b : cells) : list N := map fst a ++ map fst b.
     and without regard to errors: neither is ever "committed" *)
 Definition K_CACHE : N := 267.
 Definition K_SUBS_CELL : N := 2048.
-Definition best_effort_cell (k : N) : bool := (k =? K_CACHE) || (k =? K_SUBS_CELL).
+Definition K_STORED_CACHE_CELL : N := 9267.   (* the cache as it is in the store: start-up may rewrite it *)
+Definition best_effort_cell (k : N) : bool := (k =? K_CACHE) || (k =? K_SUBS_CELL) || (k =? K_STORED_CACHE_CELL).
 Definition K_NETS_CELL : N := 258.
 
 Definition staged_cell (fsx : option N) (k : N) : bool :=
@@ -185,8 +212,65 @@ Fixpoint check_frozen (i : N) (prev_fs : option N) (prev_end : N) (ops : list op
        end) ++ check_frozen (i + 1) (o_fs o) (o_end o) t cuts
   end.
 
+(** The resumption cache is best effort in what it REMEMBERS, not in whom it remembers it for.
+
+    (a) Once start-up is through, the stored cache holds no record of a fabric that is not in the
+        table: whatever a cut left behind, start-up cleans up - in the store too, because the next
+        power loss may come before anything else is written.  Checked on the restart from EVERY cut
+        and on the restarts that are part of the history. *)
+Definition V_STALE : N := 7.            (* cut position *)
+Definition V_STALE_LIVE : N := 8.       (* operation index *)
+Definition stale (fabs : list N) (kres : list (N * N)) : bool :=
+  existsb (fun x => negb (existsb (N.eqb (fst x)) fabs)) kres.
+
+Definition check_stale_cuts (cuts : list cutrec) : list (N * N) :=
+  flat_map (fun c => if c_boot c && stale (c_fabs c) (c_kres c) then [(V_STALE, c_n c)] else []) cuts.
+
+Fixpoint check_stale_ops (i : N) (ops : list oprec) : list (N * N) :=
+  match ops with
+  | [] => []
+  | o :: t => (if o_restart o && stale (o_fabs o) (o_kres o) then [(V_STALE_LIVE, i)] else [])
+              ++ check_stale_ops (i + 1) t
+  end.
+
+(** (b) A record belongs to the commissioning it was made for.  A fabric index is handed out again
+        after a removal; the record (fabric, peer) of the old holder must never be live under the
+        new one (it would let the old peer resume a session onto the new fabric).  A record is
+        followed from the operation it first appears in - in memory or in the store - for as long as
+        it is in either; establishing the session anew binds it anew. *)
+Definition V_REBOUND : N := 9.
+Definition peq (a b : N * N) : bool := (fst a =? fst b) && (snd a =? snd b).
+Definition bound (b : list ((N * N) * N)) (k : N * N) : option N :=
+  match find (fun x => peq (fst x) k) b with Some x => Some (snd x) | None => None end.
+
+Fixpoint check_rebound (i : N) (b : list ((N * N) * N)) (ops : list oprec) : list (N * N) :=
+  match ops with
+  | [] => []
+  | o :: t =>
+      let anywhere := o_res o ++ o_kres o in
+      let b1 := filter (fun x => existsb (peq (fst x)) anywhere) b in
+      let b2 := match o_session o with
+                | Some k => filter (fun x => negb (peq (fst x) k)) b1
+                | None => b1
+                end in
+      let moved (k : N * N) : bool :=
+        match bound b2 k, aget (o_inc o) (fst k) with
+        | Some n, Some m => negb (n =? m)
+        | _, _ => false
+        end in
+      let bad := existsb moved (o_res o) in
+      (* reported once: the record is followed under its new holder from here on *)
+      let b3 := filter (fun x => negb (existsb (peq (fst x)) (o_res o) && moved (fst x))) b2 in
+      let b4 := b3 ++ flat_map (fun k => match bound b3 k, aget (o_inc o) (fst k) with
+                                         | None, Some m => [(k, m)]
+                                         | _, _ => []
+                                         end) anywhere in
+      (if bad then [(V_REBOUND, i)] else []) ++ check_rebound (i + 1) b4 t
+  end.
+
 Definition monitor (ops : list oprec) (cuts : list cutrec) : list (N * N) :=
-  check_boot cuts ++ check_ops 0 ops cuts ++ check_whole ops cuts ++ check_frozen 0 None 0 ops cuts.
+  check_boot cuts ++ check_ops 0 ops cuts ++ check_whole ops cuts ++ check_frozen 0 None 0 ops cuts
+  ++ check_stale_cuts cuts ++ check_stale_ops 0 ops ++ check_rebound 0 [] ops.
 
 (** a corrupt resumption blob: boot must succeed; a blob that does not parse must be gone and the
     cache empty; one that parses stays and gives at most its records *)
